@@ -76,9 +76,9 @@ func c41Packet(name string, n int, kind int) []byte {
 	return p
 }
 
-// c41Len draws a packet length in [lo,hi] and case-splits on it (lengths are a forked bound).
+// c41Len draws a packet length in [lo,hi]: an enumerated bound (every value is explored).
 func c41Len(name string, lo, hi int) int {
-	return int(verif.Concrete(uint64(verif.NondetInt(name, lo, hi))))
+	return lo + verif.Choose(name, hi-lo+1)
 }
 
 // c41StreamIDs: session id, stream id and first sequence number of the sending encoder. With
@@ -275,6 +275,51 @@ func VerifC41Faults() {
 	}
 	if !inOrder && len(sink.pkts) == 0 {
 		verif.Cover("faulty-schedule-emits-nothing")
+	}
+}
+
+// VerifC41TwoStreams: two encoders of the same session with different stream ids (what Session.SetPaths
+// creates when the path set changes) each send n packets; their frames reach the receiver in an
+// arbitrary schedule of d deliveries. Every emitted packet must be one of the sent packets (frames
+// of different streams must never be spliced together).
+//
+//	params: mtu, n, lo, hi, d
+func VerifC41TwoStreams() {
+	mtu := verif.Param("mtu")
+	n := verif.Param("n")
+	d := verif.Param("d")
+	sess := verif.NondetU8("sess")
+	s1, s2 := verif.NondetU32("stream1"), verif.NondetU32("stream2")
+	verif.Assume((s1^s2)&0xfffff != 0) // the wire carries 20 bits of the stream id
+	q1, q2 := verif.NondetU64("seq1"), verif.NondetU64("seq2")
+	verif.Assume(q1 < 1<<62 && q2 < 1<<62)
+
+	pk1, orig1 := c41DrawPackets(n, verif.Param("lo"), verif.Param("hi"), verif.Param("kind"))
+	pk2, orig2 := c41DrawPackets(n, verif.Param("lo"), verif.Param("hi"), verif.Param("kind"))
+	e1 := newEncoder(sess, s1, uint16(mtu))
+	e1.seq = q1
+	e2 := newEncoder(sess, s2, uint16(mtu))
+	e2.seq = q2
+	frames := append(c41Encode(e1, pk1), c41Encode(e2, pk2)...)
+	orig := append(orig1, orig2...)
+
+	w, sink := c41Worker(sess)
+	ctx := context.Background()
+	for k := 0; k < d; k++ {
+		w.processFrame(ctx, c41FrameBuf(frames[verif.Choose("deliver", len(frames))], k))
+	}
+	verif.Observe("emitted", len(sink.pkts))
+	for _, out := range sink.pkts {
+		match := false
+		for _, p := range orig {
+			m := c41Eq(out, p)
+			match = match || m
+		}
+		verif.Assert("two-streams-every-emitted-packet-was-sent", match)
+		verif.Observe("pkt", out)
+	}
+	if len(sink.pkts) >= 2 {
+		verif.Cover("two-streams-both-deliver")
 	}
 }
 
